@@ -566,7 +566,7 @@ def run(sc) -> RunResult:
                                 solver.ensure(7)
                             else:
                                 solver.int_array(2, op["lo"], op["hi"])
-                        except (ValueError, TypeError) as e:
+                        except Exception as e:  # whatever its type, the call was rejected
                             res.hit("fault:api_call_rejected:" + w)
                             res.log("op", n_op, "rejected", w, type(e).__name__)
                         else:
